@@ -170,4 +170,11 @@ theorem caf_session_reopen (c : Cfg) (hwf : c.wf) (stale : Int) (ops : List Op) 
   rw [(stale_frames_ignored_caf c hwf stale ops hv).1]
   exact parse_image c hwf _ _ _ (by rw [sessPeaks_eq]; exact i.pklen) (by simpa using i.dlen) hsz
 
+/-- KF-CAF-DATA-MINUS-ONE as a proved witness (foreign files only): the closed 16-bit file of 3 frames with its 'data' size
+    replaced by −1 ("to the end of the file") is refused — the `chunk_size < 0` test ends the chunk walk before the data chunk -/
+theorem caf_data_size_minus_one_refused :
+    let img := image { codec := 0x02, endian := 0, ch := 1, sr := 8000 } 3 [] [0, 1, 0, 2, 0, 3]
+    parse (img.take 4084 ++ List.replicate 8 255 ++ img.drop 4092) = .err ∧
+    parse img = .ok { fmtWord := 0x180002, ch := 1, sr := 8000, frames := 3, dataoffset := 4096, datalength := 6 } := by decide +kernel
+
 end Sf.C04Caf
